@@ -568,6 +568,50 @@ func poolHygiene(p *Program, r *Report, rule string) {
 					r.OKf(rule, key, get.Pos(), "pooled value is not used as a typed object")
 					continue
 				}
+				// pooled memory must not outlive the call: nothing derived from the pooled object is
+				// returned or stored into another object
+				{
+					derived := map[ssa.Value]bool{}
+					var mark func(v ssa.Value)
+					escape := ""
+					mark = func(v ssa.Value) {
+						if derived[v] {
+							return
+						}
+						derived[v] = true
+						for _, ref := range *v.Referrers() {
+							switch x := ref.(type) {
+							case *ssa.Slice:
+								mark(x)
+							case *ssa.Phi:
+								mark(x)
+							case *ssa.ChangeType:
+								mark(x)
+							case *ssa.Convert:
+								mark(x)
+							case *ssa.Call:
+								if f := x.Call.StaticCallee(); f != nil && (f.String() == "(*bytes.Buffer).Bytes" || f.String() == "(*bytes.Buffer).Next") && len(x.Call.Args) > 0 && x.Call.Args[0] == v {
+									mark(x)
+								}
+							case *ssa.Return:
+								escape = fmt.Sprintf("%s: memory of the pooled object is returned to the caller", p.pos(x.Pos()))
+							case *ssa.Store:
+								if x.Val == v {
+									if _, local := x.Addr.(*ssa.Alloc); !local {
+										escape = fmt.Sprintf("%s: memory of the pooled object is stored into %s", p.pos(x.Pos()), describeVal(x.Addr))
+									}
+								}
+							}
+						}
+					}
+					for _, o := range objs {
+						mark(o)
+					}
+					if escape != "" {
+						r.Fail(rule, key+" escape", get.Pos(), "%s, yet the object goes back into the pool: the next caller overwrites data that is still in use", escape)
+						continue
+					}
+				}
 				for _, v := range objs {
 					hasReset := false
 					if ms := p.SSA().MethodSets.MethodSet(v.Type()); ms != nil {
